@@ -22,6 +22,7 @@
 package main
 
 import (
+	"bytes"
 	"encoding/hex"
 	"encoding/json"
 	"fmt"
@@ -72,10 +73,14 @@ type crashPoint struct {
 	realDrop, realKeep string
 	realRaw            int               // RNG draws the real CrashClone made (incl. draws without effect)
 	realImgs           map[string]string // hash -> description of scripted single-flip clones
+	// the operation about to run is a pure append: a crash during it leaves a prefix of these bytes
+	tornPath string
+	tornData []byte
 	// enumeration result
 	M      int
 	Mode   string
 	Images int
+	Torn   int
 }
 
 type imgEntry struct {
@@ -95,6 +100,7 @@ type decision struct {
 	p    string
 	blk  int
 	keep bool
+	torn string // set for the pseudo decision of a torn-append image
 }
 
 func vecString(ds []decision) string {
@@ -105,6 +111,10 @@ func vecString(ds []decision) string {
 	for i, d := range ds {
 		if i > 0 {
 			sb.WriteString(" ")
+		}
+		if d.torn != "" {
+			sb.WriteString(d.torn)
+			continue
 		}
 		what := "drop"
 		if d.keep {
@@ -134,7 +144,7 @@ func enumerate(cp *crashPoint, emit func(im *image, ds []decision)) {
 			var ds []decision
 			cp.snap.crashImage("", func(p string, blk int) bool {
 				keep := (c.Choose(2) == 1) != keepDefault
-				ds = append(ds, decision{p, blk, keep})
+				ds = append(ds, decision{p: p, blk: blk, keep: keep})
 				return keep
 			}, im)
 			cp.Images++
@@ -149,7 +159,59 @@ func enumerate(cp *crashPoint, emit func(im *image, ds []decision)) {
 		run(false, boundDev(m))
 		run(true, boundDev(m))
 	}
+	// torn append: the crash happens DURING the operation this crash point precedes. Everything written
+	// before survives (keep-all) and a byte prefix of the appended data made it to the file (file
+	// lengths are byte-granular; MemFS only models whole 4 KiB blocks). Cuts on a coarse grid plus a fine grid over the tail; the
+	// two ends (nothing / everything appended) are the ordinary images of this and the next crash point.
+	if len(cp.tornData) > 1 {
+		base := &image{Files: map[string][]byte{}}
+		cp.snap.crashImage("", func(string, int) bool { return true }, base)
+		key := ""
+		for k := range base.Files {
+			if k == cp.tornPath || strings.HasSuffix(k, "/"+strings.TrimPrefix(cp.tornPath, "/")) {
+				key = k
+			}
+		}
+		if key != "" {
+			// cut points: a coarse grid over the whole append plus a fine grid over its last bytes (the
+			// record that completes a batch / names the new commit comes last)
+			n := len(cp.tornData)
+			cutSet := map[int]bool{}
+			coarse := tornCoarse
+			if n/64 > coarse {
+				coarse = n / 64
+			}
+			for cut := coarse; cut < n; cut += coarse {
+				cutSet[cut] = true
+			}
+			for k := tornFine; k <= tornTail && k < n; k += tornFine {
+				cutSet[n-k] = true
+			}
+			cutSet[1] = true
+			cuts := make([]int, 0, len(cutSet))
+			for c := range cutSet {
+				cuts = append(cuts, c)
+			}
+			sort.Ints(cuts)
+			for _, cut := range cuts {
+				im := &image{Files: make(map[string][]byte, len(base.Files)), Dirs: base.Dirs}
+				for k, v := range base.Files {
+					im.Files[k] = v
+				}
+				im.Files[key] = append(bytes.Clone(base.Files[key]), cp.tornData[:cut]...)
+				cp.Images++
+				cp.Torn++
+				emit(im, []decision{{p: key, keep: true, torn: fmt.Sprintf("KEEP:everything-written-before + first %d of the %d bytes being appended to %s", cut, len(cp.tornData), key)}})
+			}
+		}
+	}
 }
+
+const (
+	tornCoarse = 128
+	tornFine   = 8
+	tornTail   = 192
+)
 
 // ---------------------------------------------------------------------------------------
 // the instrumented run
@@ -161,6 +223,7 @@ type runStats struct {
 	PointsByPhase     map[string]int `json:"crash_points_by_phase"`
 	NoEffectOps       int64          `json:"fs_ops_without_crash_effect"`
 	Images            int            `json:"images_enumerated"`
+	TornImages        int            `json:"of_which_torn_append_images"`
 	FullPoints        int            `json:"points_all_subsets"`
 	BoundedPoints     int            `json:"points_bounded"`
 	MaxM              int            `json:"max_effective_decisions"`
@@ -188,7 +251,7 @@ func crashRun(sc scenario, ref *reference, scripted bool) ([]*crashPoint, *runSt
 	var started atomic.Int64
 	st := &runStats{Scenario: sc, OpsByKind: map[string]int{}, PointsByPhase: map[string]int{}}
 	record := func(op fsOp) {
-		cp := &crashPoint{Idx: len(points), Op: op.String(), Phase: phase.Load().(string), Started: int(started.Load()), snap: cfs.snapshot()}
+		cp := &crashPoint{Idx: len(points), Op: op.String(), Phase: phase.Load().(string), Started: int(started.Load()), snap: cfs.snapshot(), tornPath: op.Path, tornData: op.Appended}
 		st.OpsByKind[op.Kind]++
 		st.PointsByPhase[phaseClass(cp.Phase)]++
 		// the real thing, for validation of the shadow
@@ -640,6 +703,9 @@ func main() {
 				hs := im.hash()
 				seen[hs] = true
 				allDrop, allKeep := true, true
+				if len(ds) == 1 && ds[0].torn != "" {
+					allDrop, allKeep = false, false
+				}
 				for _, d := range ds {
 					if d.keep {
 						allDrop = false
@@ -697,6 +763,7 @@ func main() {
 		}
 		for _, cp := range points {
 			st.Images += cp.Images
+			st.TornImages += cp.Torn
 			st.RealClones += len(cp.realImgs) + 2
 			st.RealRawMax = max(st.RealRawMax, cp.realRaw)
 			st.MaxM = max(st.MaxM, cp.M)
